@@ -560,3 +560,72 @@ Definition history_spec (names : list str) (dflt : nat) (bsegs : list str) (inst
   | Ok ps => list_eqb str_eqb ps (map (fun l => url_path names dflt bsegs l inst) ls)
   | Panic _ => false
   end.
+
+(** * I18nNestedRoute::match_nested.
+    The inner route tree is matched by leptos_router, which is not modelled: its answers are oracle
+    arguments.  [ol]: for every locale (in [names] order) the result of matching the inner tree, under
+    that locale, against the REST of the path after the first segment; [od]: the result of matching
+    the inner tree under the default locale against the WHOLE path.  A result is (remaining, params).
+    The model mirrors the code: the locales are tried in order — the first segment must be exactly
+    the locale's name and the rest must match — and only then the bare path. *)
+Definition mres := (str * list (str * str))%type.
+
+Fixpoint find_loc (f : str) (names : list str) (ol : list (option mres)) (idx : nat) : option (nat * mres) :=
+  match names, ol with
+  | nm :: names', o :: ol' =>
+      if str_eqb nm f then
+        match o with Some r => Some (idx, r) | None => find_loc f names' ol' (S idx) end
+      else find_loc f names' ol' (S idx)
+  | _, _ => None
+  end.
+
+(** result: (locale, matched prefix, (remaining, params)) *)
+Definition match_nested_model (names : list str) (first : option str) (ol : list (option mres)) (od : option mres)
+  : option (option nat * str * mres) :=
+  match (match first with Some f => find_loc f names ol O | None => None end) with
+  | Some (l, r) => Some (Some l, slash :: name_of names l, r)
+  | None => match od with Some r => Some (None, [], r) | None => None end
+  end.
+
+(** the two attempts in the other order (bare path first): kept for the refutation *)
+Definition match_nested_swapped (names : list str) (first : option str) (ol : list (option mres)) (od : option mres)
+  : option (option nat * str * mres) :=
+  match od with
+  | Some r => Some (None, [], r)
+  | None => match (match first with Some f => find_loc f names ol O | None => None end) with
+            | Some (l, r) => Some (Some l, slash :: name_of names l, r)
+            | None => None
+            end
+  end.
+
+Definition pair_eqb {A B} (ea : A -> A -> bool) (eb : B -> B -> bool) (x y : A * B) : bool :=
+  ea (fst x) (fst y) && eb (snd x) (snd y).
+Definition mres_eqb : mres -> mres -> bool := pair_eqb str_eqb (list_eqb (pair_eqb str_eqb str_eqb)).
+Definition omres_eqb (a b : option mres) : bool :=
+  match a, b with Some x, Some y => mres_eqb x y | None, None => true | _, _ => false end.
+Definition is_some {A} (o : option A) : bool := match o with Some _ => true | None => false end.
+
+(** locale [j] serves the path: its name is exactly the first segment and the rest matches under it *)
+Definition served (names : list str) (ol : list (option mres)) (f : str) (j : nat) : bool :=
+  str_eqb (name_of names j) f && is_some (nth j ol None).
+
+(** the locale read is [Some l] iff the first segment equals [name l] exactly and the rest is matched by
+    the inner table under [l] ([l] the first such locale); otherwise no locale and the whole path is
+    matched by the inner table *)
+Definition spec_match (names : list str) (first : option str) (ol : list (option mres)) (od : option mres)
+  (out : option (option nat * str * mres)) : bool :=
+  let n := length names in
+  let none_served := match first with
+                     | Some f => forallb (fun j => negb (served names ol f j)) (seq 0 n)
+                     | None => true
+                     end in
+  match out with
+  | Some (Some l, m, r) =>
+      match first with
+      | Some f => Nat.ltb l n && str_eqb (name_of names l) f && omres_eqb (nth l ol None) (Some r)
+                  && str_eqb m (slash :: f) && forallb (fun j => negb (served names ol f j)) (seq 0 l)
+      | None => false
+      end
+  | Some (None, m, r) => negb (nonempty m) && omres_eqb od (Some r) && none_served
+  | None => negb (is_some od) && none_served
+  end.
